@@ -46,6 +46,10 @@ def make_wsdl(nparts, complex_idx, local_prefixes=False, soap12=False):
         for i in range(nparts):
             w = w.replace('<wsdl:part name="h" element="h%d:H%d"/>' % (i, i),
                           '<wsdl:part name="h" xmlns:h%d="%s" element="h%d:H%d"/>' % (i, HNS[i], i, i), 1)
+        # ... and the binding names the header messages through a prefix that only the binding element declares
+        if nparts and 'message="w:fHdr' in w:
+            w = w.replace('message="w:fHdr', 'message="hb:fHdr').replace(
+                '<wsdl:binding name="B"', '<wsdl:binding xmlns:hb="%s" name="B"' % wsdlkit.WNS, 1)
         return w.encode()
     decl = " ".join('xmlns:h%d="%s"' % (i, HNS[i]) for i in range(nparts))
     return w.replace("<wsdl:definitions ", "<wsdl:definitions %s " % decl, 1).encode()
